@@ -88,6 +88,23 @@ def runner_c18(tier, seed, workdir):
                             "the order in which different channels are served is not observable"]}
 
 
+def runner_c20(tier, seed, workdir):
+    import c20
+    res = c20.run(seed, tier, workdir)
+    violations = []
+    for d in res['disagreements'][:20]:
+        violations.append({'class': d['class'], 'detail': f"case {d['case']['id']} ({d['case']['kind']}): expected {short(d['expected'])}, the engine gives {short(d['observed'])}",
+                           'case': {'kind': 'model', 'case': d['case'], 'model_case': d['model_case'], 'expected': d['expected'], 'observed': d['observed']}})
+    st = res['stats']
+    cov = {'evaluations': st['serde'] + st['tree'] + st['deploy'], 'distinct_nontrivial': st['serde'] + (st['tree'] - st['tree_rejected']) + st['deploy'],
+           'rule': "serde: workflows generated from the field tables the translator reads out of acts/src/model/*.rs (every field of Workflow/Step/Branch/Act/Catch/Timeout; a third with all fields set, the rest with random subsets; unicode, YAML-hostile and multi-line text, boundary integers up to u64, floats, nested values), parsed, compared field by field with the input, written to JSON and YAML and parsed back; tree: workflows with nested branches, acts, catches, timeouts, `on` acts, explicit next (backward, self, forward, unknown), generated ids and duplicate ids, Engine::verif_tree against Tree.build_model; deploy: deploy / rm / start sequences over three model ids (valid and invalid models, changing `on` lists and ver fields) on a fresh engine against Serde.dstep; non-trivial = serde cases + accepted trees + deploy histories",
+           'traces_validated_against_impl': st['agree'], 'input_distribution': st, 'samples': [res['cases'][-1]]}
+    return {'cov': cov, 'violations': violations,
+            'assumptions': ["serde's derive implements the field attributes as the tables record them; serde_json / serde_yaml text layers and the leaf codecs are exercised by the round-trip cases, not modelled",
+                            "a `next` that names an `on` act is outside the generated grammar",
+                            "generated ids (shortid) do not collide"]}
+
+
 def classify_c10(d):
     op = d['case']['ops'][d['op']]
     return f"{d['backend']}:{op['op']}"
@@ -129,7 +146,7 @@ def engine_runner(prop):
     return run
 
 
-RUNNERS = {'C10': runner_c10, 'C09': runner_c09, 'C14': runner_c14, 'C18': runner_c18}
+RUNNERS = {'C10': runner_c10, 'C09': runner_c09, 'C14': runner_c14, 'C18': runner_c18, 'C20': runner_c20}
 for _p in ('C01', 'C02', 'C03', 'C05', 'C08', 'C19'):
     RUNNERS[_p] = engine_runner(_p)
 
@@ -219,6 +236,14 @@ def replay(prop, path):
         print(json.dumps(case, indent=1)[:2000])
         print("re-run with ./check C14 quick (the case is part of the seed's corpus); expected vs observed above")
         return 1
+    if case.get('kind') == 'model':
+        import c20
+        common.translate(); common.ocaml_build(); common.harness_build()
+        dis, _ = c20.evaluate([case['case']], [case['model_case']] if case.get('model_case') else [], c20.fields(), workdir)
+        for d in dis:
+            print(f"{d['class']}: expected {short(d['expected'])} observed {short(d['observed'])}")
+        print("REPRODUCED" if dis else "NOT-REPRODUCED")
+        return 1 if dis else 0
     if case.get('kind') == 'retry':
         import c09
         common.ocaml_build(); common.harness_build()
